@@ -981,7 +981,7 @@ def havoc_heap(ex, st, hn, preds, ovar, alive0):
     if not hn.startswith("$"):
         hname = "has$" + hn
         if hname in st.heap or True:
-            ho, hnw = ex.fresh_heap(st, hname)
+            ho, hnw = ex.fresh_heap(st, hname, preds=(preds, ovar) if preds is not None else None)
             st.assume(smt.forall([o], z3.Implies(ho[o], hnw[o]), patterns=[hnw[o]]))
             if preds is not None:
                 inmod = z3.Or([z3.substitute(p, (ovar, o)) for p in preds])
